@@ -19,18 +19,19 @@ LEVEL_TEXT = ("Integers (fast_atoi as repaired by a8219b1), full strength: for E
               "intermediate int operation in range (overflow-checked model: no undefined behaviour); every uint32 likewise; on "
               "arbitrary text all three instantiations return the value whenever the text is a canonical decimal of the type; "
               "witnesses that the routine before the repair failed (-5 -> -25, signed overflow on INT_MAX).  Doubles: the general "
-              "round-trip law is refuted by kernel-checked witnesses (tie-branch roll-over, double rounding, inexact parser, "
-              "exponential format and int overflow just below 2^31); proved: every integral double below 2^31 renders as its "
+              "round-trip law is refuted by kernel-checked witnesses (double rounding onto an exact half, inexact parser, "
+              "exponential format and int overflow just below 2^31; the tie-branch roll-over only for the code before a6c4c45); proved: every integral double below 2^31 renders as its "
               "decimal and parses back bit-exactly at every precision 0..9 (accepted by the oracle); for every finite double every "
               "rendered text has the shape [-]digits[.digits] with 1..p fraction digits and inside the 2^31-1 threshold a text is "
-              "always produced; when the tie test diff == 0.5 is false the rounding stage yields the nearest integer; precision 0 "
-              "is always correctly rounded (half-even).")
+              "always produced; the stage's frac is < 10^p and the text denotes exactly (whole*10^p+frac)/10^p; whenever the tie test "
+              "diff == 0.5 is false the TEXT is the correctly rounded decimal (precision 1..9); precision 0 is always correctly "
+              "rounded (half-even).")
 LEVEL_NOTE = ("Trusted: Coq kernel, Flocq 4.1.0 (binary64 operations; its Reals axioms), extraction (ExtrOcamlBasic), the "
               "hand transcriptions (checked by the correspondence run), x86-64 SSE2 double arithmetic (round to nearest "
               "even, no x87 excess precision, no FMA contraction), char signed; one fully sanitized harness build "
               "(ASan + UBSan incl. shift and signed-overflow checks): an undefined int operation inside fast_atoi stops "
               "the process and is compared with the overflow-checked model's UB outcome.")
-DESIGN_REF = "DESIGN.md section 4, C08; findings F01 (fixed by a8219b1), F02, F03 (section 5)"
+DESIGN_REF = "DESIGN.md section 4, C08; findings F01 (fixed by a8219b1), F02 (fixed by a6c4c45), F03 (section 5)"
 PROPS_FILE = "Props/Properties_C08.v"
 COQ_TARGETS = ["Props/Properties_C08.vo", "Extract/Extract_C08.vo"]
 TRUSTED_BASE = [
@@ -548,14 +549,25 @@ def analyse_dtoa(case, r):
     return a
 
 
-def is_rollover(v, p):
-    value, whole, tmp, frac, diff, exact = stage(v, p)
-    return p >= 1 and diff == 0.5 and frac + 1 == 10 ** p
+def rendered_units(p, text):
+    """the rendered decimal as an integer number of units 10^-p, None if not [-]digits[.digits]"""
+    m = DEC_RE.match(text)
+    if not m or len(m.group(3) or "") > p:
+        return None
+    fp = m.group(3) or ""
+    return int(m.group(2) + fp) * 10 ** (p - len(fp))
 
 
-def is_inexact_half(v, p):
+def is_inexact_half(v, p, text):
+    """the remaining rendering defect (double rounding): precision >= 1, the COMPUTED diff is exactly 0.5
+    although the exact product (|v| - whole) * 10^p is not half-way -- negation of the hypothesis of
+    c08_dtoa_correct_partial -- and, the roll-over being repaired (a6c4c45), the text is exactly one unit
+    in the last place away from the correctly rounded decimal"""
     value, whole, tmp, frac, diff, exact = stage(v, p)
-    return p >= 1 and diff == 0.5 and exact != Fraction(2 * frac + 1, 2) and frac + 1 != 10 ** p
+    if not (p >= 1 and diff == 0.5 and exact != Fraction(2 * frac + 1, 2)):
+        return False
+    units = rendered_units(p, text)
+    return units is not None and abs(units - round_half_even(abs(Fraction(v)) * 10 ** p)) == 1
 
 
 def is_sliver(v):
@@ -573,9 +585,7 @@ def dtoa_explained(a, want):
         return want == "overflow" and is_sliver(a["v"]) and whole == INT_MAX and diff > 0.5 and frac + 1 >= 10 ** a["p"]
     reasons = set()
     if not a["render"]:
-        if is_rollover(a["v"], a["p"]):
-            reasons.add("rollover")
-        elif is_inexact_half(a["v"], a["p"]):
+        if is_inexact_half(a["v"], a["p"], a["text"]):
             reasons.add("inexact-half")
         else:
             return False
@@ -585,10 +595,6 @@ def dtoa_explained(a, want):
         else:
             return False
     return want in reasons
-
-
-def c_rollover(case, r, m):
-    return dtoa_explained(analyse_dtoa(case, r), "rollover")
 
 
 def c_inexact_half(case, r, m):
@@ -618,7 +624,9 @@ def c_atof_inexact(case, r, m):
 
 # (the integer findings atoi-negative / atoi-top-overflow / atoi-negative-shift are FIXED by a8219b1: no classifier,
 #  their witnesses must simply pass)
-CLASSIFIERS = { "dtoa-tie-rollover": c_rollover, "dtoa-inexact-half": c_inexact_half,
+# (dtoa-tie-rollover is FIXED by a6c4c45: no classifier; its witness 0.95@1 now prints "1.0" and is explained,
+#  like every input of that kind, by dtoa-inexact-half)
+CLASSIFIERS = {"dtoa-inexact-half": c_inexact_half,
                "dtoa-exp-sliver": c_sliver, "dtoa-whole-overflow": c_overflow, "atof-inexact": c_atof_inexact}
 
 
